@@ -1,13 +1,18 @@
 #!/usr/bin/env python3
 """Copy a confirmed seeded change from /tmp/mut/<id>.out into /verif/seeded/<id>/ with the confirmation record."""
 import json, os, shutil, sys
-for pid in sys.argv[1:]:
-    src = '/tmp/mut/%s.out' % pid
-    conf = json.load(open('/tmp/mut/%s.confirm.json' % pid))
+base = '/tmp/mut'
+suffix = ''
+args = sys.argv[1:]
+if args and args[0].startswith('--base='):
+    base = args[0].split('=', 1)[1]; suffix = '-' + os.path.basename(base).replace('mut', '') ; args = args[1:]
+for pid in args:
+    src = '%s/%s.out' % (base, pid)
+    conf = json.load(open('%s/%s.confirm.json' % (base, pid)))
     ok = conf['demo_pristine_exit'] == 0 and conf['demo_mutant_exit'] == 1 and 'missing 0' in conf['suite'] and conf['patch_applies']
     if not ok:
         print(pid, 'NOT confirmed', conf); continue
-    dst = '/verif/seeded/%s' % pid
+    dst = '/verif/seeded/%s%s' % (pid, suffix)
     os.makedirs(dst, exist_ok=True)
     shutil.copy(src + '/patch.diff', dst + '/patch.diff')
     shutil.copy(src + '/demo.py', dst + '/demo.py')
